@@ -77,6 +77,26 @@ def run_interleaving(story, order, flows, scratch, extras, tag):
             sess.send(["switch", "scratchflow"]); sess.send(["switch", name])
         elif extras == "default":
             sess.send(["default"])
+    sess.removal = None
+    if extras == "remove" and order:
+        # remove the flow that is current: it must be gone (not parked), so creating it again
+        # is like creating any flow that never existed
+        name = f"flow{order[-1]}"
+
+        def observe():
+            return {"can": sess.send(["can"]).get("v"), "text": sess.send(["text"]).get("v"),
+                    "tags": sess.send(["tags"]).get("v"), "choices": sess.send(["choices"]).get("v"),
+                    "path": sess.send(["curpath"]).get("v")}
+        r1 = sess.send(["remove", name])
+        saved = sess.send(["savejson"]).get("v") or {}
+        sess.send(["switch", name])
+        again = observe()
+        sess.send(["remove", name])
+        sess.send(["switch", name + "_never_seen"])
+        fresh = observe()
+        sess.send(["remove", name + "_never_seen"])
+        sess.removal = {"flow": name, "remove_result": r1.get("r"), "flows_in_save": sorted((saved.get("flows") or {}).keys()),
+                        "recreated": again, "fresh": fresh}
     sess.send(["savejson"])
     sess.close()
     return per_flow, sess
@@ -104,6 +124,13 @@ def one_case(job):
                                        "why": "a flow's transcript depends on what the other flow did"},
                                       {"kind": "interleaving", "extras": extras or "none"}))
             break
+    rm_ = getattr(sess, "removal", None)
+    if rm_ and rm_["remove_result"] == "ok":
+        if rm_["flow"] in rm_["flows_in_save"] or rm_["recreated"] != rm_["fresh"]:
+            res["violations"].append(({"story": desc, "ops": sess.ops, "removal": rm_,
+                                       "why": "removing the current flow did not remove it: it is still saved, or "
+                                              "creating it again resumes the old flow instead of a new one"},
+                                      {"kind": "remove-current"}))
     res["nontrivial"] = all(any(t[0] == "lines" and any(isinstance(x, str) and x for x in t[1]) for t in inter[fi])
                             for fi in set(order)) and any(t[0] == "choose" for fi in set(order) for t in inter[fi])
     for op, r in zip(sess.ops, sess.results):
@@ -132,7 +159,7 @@ def run(ctx):
         orders = [list(c) for c in set(itertools.permutations([0] * k + [1] * k))]
         rng.shuffle(orders)
         for oi, order in enumerate(orders[: (20 if quick else 70)]):
-            extras = [None, "saveload", "away", "default", "saveload_all"][oi % 5]
+            extras = [None, "saveload", "away", "default", "saveload_all", "remove"][oi % 6]
             jobs.append((s, order, extras, ctx.seed * 1013 + si * 101 + oi, ctx.scratch))
         nfl = len(s["meta"]["flows"])
         if nfl >= 3:
